@@ -118,12 +118,25 @@ def grid_points(symbols, per_symbol, seed=0, dts=(0.125, -0.25)):
     n = len(table)
     axes = []
     for i, s in enumerate(symbols):
-        axes.append([table[(i * 3 + j * 5 + seed // 4) % n] for j in range(per_symbol)])
+        # beyond the 6th symbol slot a single value is used (wide models: 2^6 or 3^6 points are plenty to expose a slot swap,
+        # all slots still carry distinct values)
+        axes.append([table[(i * 3 + j * 5 + seed // 4) % n] for j in range(per_symbol if i < 6 else 1)])
+    first = None
     for dt in dts:
         for combo in itertools.product(*axes):
             env = dict(zip(symbols, combo))
             env["dt"] = dt
+            if first is None:
+                first = dict(env)
             yield env
+    # boundary values AFTER the generic points (so that anything kept between calls has been filled with non-zero values):
+    # the all-zero input, a zero time step, each symbol zero on its own, and finally the very first point once more
+    if first is not None:
+        yield dict({s: 0.0 for s in symbols}, dt=dts[0])
+        yield dict(first, dt=0.0)
+        for s in symbols[:4]:
+            yield dict(first, **{s: 0.0})
+        yield dict(first)
 
 
 def some_points(symbols, count, seed=0, dts=(0.125,)):
@@ -156,16 +169,19 @@ def fingerprint(i, symbols, quad=True):
     return sum_(terms)
 
 
-STATE_NAMES = ["y", "x", "z"]  # declaration order deliberately not the sorted order
-CONTROL_NAMES = ["w", "u"]
-CAL_NAMES = ["k", "c"]
+STATE_NAMES = ["y", "x", "z", "x10", "x2", "w_s"]  # declaration order deliberately not the sorted order; x10 < x2 < z
+CONTROL_NAMES = ["w", "u", "u10", "u2"]
+CAL_NAMES = ["k", "c", "c_1", "K"]
 
 
 def bind_def(n, k, c, order=0, container="set", as_strings=False, sensors_shape=(), tag=""):
     st_all = STATE_NAMES[:n]
     ct_all = CONTROL_NAMES[:k]
     ca_all = CAL_NAMES[:c]
-    perms_s = list(itertools.permutations(st_all))
+    if n <= 3:
+        perms_s = list(itertools.permutations(st_all))
+    else:  # wide models: a few rotations/reversals instead of all n! orders
+        perms_s = [tuple(st_all[r:] + st_all[:r]) for r in range(n)] + [tuple(reversed(st_all))]
     st = list(perms_s[order % len(perms_s)])
     ct = list(reversed(ct_all)) if (order // len(perms_s)) % 2 else list(ct_all)
     ca = list(reversed(ca_all)) if (order // (2 * len(perms_s))) % 2 else list(ca_all)
@@ -212,6 +228,11 @@ def family_bind(tier, with_sensors=False):
         if with_sensors:
             sens = [(1,), (2,), (3,), (1, 2), (2, 1, 3), (3, 1)][i % 6]
         out.append(bind_def(n, k, c, order=i, container="list" if i % 2 else "set", sensors_shape=sens))
+    # "any number of symbols": wide models (names include x10 < x2, u10 < u2, upper-case K < c)
+    wide = [(5, 3, 3), (4, 3, 0), (6, 0, 4)] if tier == "thorough" else [(5, 3, 3)]
+    for i, (n, k, c) in enumerate(wide):
+        out.append(bind_def(n, k, c, order=i + 1, container="list" if i % 2 else "set",
+                            sensors_shape=((3, 1) if with_sensors else ()), tag="-wide"))
     if tier == "thorough":
         for n, k, c in [(3, 2, 2), (2, 2, 1), (3, 1, 0), (2, 0, 2)]:
             for order in range(24):
@@ -264,6 +285,13 @@ def _one_op_defs():
     out.append(mk("only-control", S("u")))
     out.append(mk("only-cal", S("c")))
     out.append(mk("only-dt", DT))
+    # a single denominator factor that is a square / cube (printers that expand small powers must keep the parentheses)
+    out.append(mk("div-by-square", div(S("u"), pw(S("x"), 2))))
+    out.append(mk("div-by-cube", div(S("c"), pw(add(S("x"), S("y")), 3))))
+    out.append(mk("inv-square", add(pw(S("y"), -2), S("x"))))
+    out.append(mk("reciprocal", add(div(C(1), S("y")), S("x"))))
+    out.append(mk("neg-one-coeff", sub(S("x"), mul(DT, S("y")))))
+    out.append(mk("neg-two-coeff", sub(S("x"), mul(C(2), mul(DT, S("y"))))))
     # depth-3 mixes
     out.append(mk("mix1", div(mul(fn("sin", add(S("x"), S("u"))), fn("exp", mul(C(1, 4), S("c")))), add(pw(S("y"), 2), C(1)))))
     out.append(mk("mix2", sub(pw(add(S("x"), mul(DT, S("u"))), 3), fn("atan", mul(S("c"), S("y"))))))
@@ -274,7 +302,8 @@ def _one_op_defs():
 def family_ops(tier):
     d = _one_op_defs()
     if tier == "quick":
-        return d[::3]
+        keep = [x for x in d if any(t in x["name"] for t in ("div-by-", "inv-square", "reciprocal", "neg-one", "neg-two"))]
+        return d[::3] + [x for x in keep if x not in d[::3]]
     return d
 
 
@@ -319,10 +348,19 @@ def family_cse(tier):
     out.append(mk("identity-outs", [y, x]))
     out.append(mk("swap", [y, x, mul(x, y)]))
     out.append(mk("dtshare", [add(x, mul(DT, s1)), add(y, mul(DT, s1)), mul(DT, mul(DT, s1))]))
+    # sign-sensitive constructs around a shared sub-expression that takes both signs on the grid: a simplification that
+    # assumes temporaries are positive (sqrt(t**2) -> t, sqrt(a*b) -> sqrt(a)*sqrt(b)) changes these
+    dxy = sub(x, y)
+    duv = sub(u, mul(C(2), x))
+    ab = lambda e: fn("sqrt", pw(e, 2))
+    out.append(mk("sign-abs1", [mul(ab(dxy), dxy), add(ab(dxy), u)]))
+    out.append(mk("sign-abs2", [mul(ab(duv), duv), add(dxy, ab(duv)), mul(dxy, duv)]))
+    out.append(mk("sign-sqrtprod", [fn("sqrt", add(mul(pw(dxy, 2), pw(duv, 2)), C(1, 2))), mul(dxy, duv)]))
+    out.append(mk("sign-atan", [fn("atan", div(dxy, add(pw(duv, 2), C(1)))), mul(fn("atan", div(dxy, add(pw(duv, 2), C(1)))), dxy)]))
     out.append(many_temporaries(13, "a"))
     out.append(many_temporaries(24, "b"))
     if tier == "quick":
-        return out[::4] + out[-10:]
+        return out[::4] + out[-14:]
     return out
 
 
